@@ -69,6 +69,18 @@ type dIface struct {
 	N  int
 }
 
+// slices of interfaces (JSON-like data) and slices of slices of strings
+type dSl struct {
+	L  []interface{} `class:"secret"`
+	LS []interface{} `class:"sensitive"`
+	LP []interface{} `class:"public"`
+	LU []interface{}
+	SS [][]string `class:"secret"`
+	SP [][]string `class:"public"`
+	M  map[string]interface{}
+	N  int
+}
+
 // Taggable shapes: the tags of the value under test are set per case
 var curTags []encrypt.PointerTag
 
@@ -302,7 +314,7 @@ func deepShapes(p *prng, n int, st *stats, oracle func(string, ...any)) {
 		kind := ""
 		curTags = nil
 		f.IgnoreTypes = nil
-		switch p.intn(24) {
+		switch p.intn(26) {
 		case 0:
 			l := mkLeaf(c, p)
 			payload, kind = &l, "ptr-struct"
@@ -384,6 +396,17 @@ func deepShapes(p *prng, n int, st *stats, oracle func(string, ...any)) {
 		case 23:
 			l := mkLeaf(c, p)
 			payload, kind = &dIface{S: c.prot(), B: []byte(c.prot()), P: c.pub(), U: c.prot(), T: mkLeaf(c, p), PT: &l, L: []string{c.prot()}, N: 1}, "interface-held-values"
+		case 24:
+			l := mkLeaf(c, p)
+			mixed := func() []interface{} {
+				return []interface{}{c.prot(), mkLeaf(c, p), &l, map[string]interface{}{"k": c.prot()}, []byte(c.prot()), nil, 7, []string{c.prot()}}
+			}
+			payload, kind = &dSl{L: mixed(), LS: []interface{}{c.prot(), []byte(c.prot())}, LP: []interface{}{c.pub(), 3}, LU: mixed(),
+				SS: [][]string{{c.prot(), c.prot()}, nil, {}}, SP: [][]string{{c.pub()}},
+				M: map[string]interface{}{"tags": []interface{}{c.prot(), c.prot()}, "rows": []interface{}{[]interface{}{c.prot(), mkLeaf(c, p)}}}, N: 1}, "slices-of-interfaces"
+		case 25:
+			l := mkLeaf(c, p)
+			payload, kind = []interface{}{c.prot(), mkLeaf(c, p), &l, map[string]interface{}{"k": c.prot(), "l": []interface{}{c.prot()}}, nil}, "payload-slice-of-interfaces"
 		case 21:
 			// zero payloads of every kind: forwarded unchanged, with their dynamic type
 			switch p.intn(7) {
